@@ -24,7 +24,9 @@ type hOp struct {
 	Mode   string `json:"mode"`
 	Create bool   `json:"create"`
 	Check  bool   `json:"check"`
-	Res    string `json:"res"`
+	// Recover: Options.Recover. A read-write Open repairs the head segment, a read-only Open must only check it.
+	Recover bool   `json:"recover"`
+	Res     string `json:"res"`
 }
 
 type hHist struct {
@@ -40,7 +42,7 @@ func classifyOpen(err error) string {
 	switch {
 	case strings.Contains(s, "already"):
 		return "Locked"
-	case strings.Contains(s, "open check"):
+	case strings.Contains(s, "open check"), strings.Contains(s, "open recover"):
 		return "Check"
 	case strings.Contains(s, "no such file or directory"):
 		return "NoDir"
@@ -97,12 +99,19 @@ func runHandleHist(hh *hHist, root string, tw *TraceWriter) {
 			if hs[op.ID] != nil {
 				continue
 			}
-			l, err := klevdb.Open(dir, klevdb.Options{Readonly: op.Mode == "ro", CreateDirs: op.Create, Check: op.Check,
+			shaBefore := logFilesSha(dir)
+			l, err := klevdb.Open(dir, klevdb.Options{Readonly: op.Mode == "ro", CreateDirs: op.Create, Check: op.Check, Recover: op.Recover,
 				KeyIndex: true, TimeIndex: true, Rollover: 100})
-			x.emit("hopen", map[string]any{"id": op.ID, "mode": op.Mode, "create": op.Create, "check": op.Check,
+			x.emit("hopen", map[string]any{"id": op.ID, "mode": op.Mode, "create": op.Create, "check": op.Check, "recover": op.Recover,
 				"res": classifyOpen(err), "errs": errStr(err)})
+			if op.Mode == "ro" { // whatever its options and its outcome, a read-only Open changes no log file
+				x.emit("same", map[string]any{"a": shaBefore, "b": logFilesSha(dir), "what": "log files unchanged by a read-only Open (successful or failed)", "id": op.ID})
+			}
 			if err != nil {
 				continue
+			}
+			if op.Mode == "rw" && op.Recover && savedIx != nil {
+				savedIx = nil // repaired by Recover
 			}
 			hs[op.ID], mode[op.ID] = l, op.Mode
 			if op.Mode == "ro" {
@@ -167,12 +176,19 @@ func runHandleHist(hh *hHist, root string, tw *TraceWriter) {
 				continue
 			}
 			savedPath = filepath.Join(dir, fmt.Sprintf("%020d.index", segs[len(segs)-1].Base))
+			if (i+hh.ID)%2 == 1 { // every other damage is a torn tail of the head LOG instead (half a record header)
+				savedPath = filepath.Join(dir, fmt.Sprintf("%020d.log", segs[len(segs)-1].Base))
+			}
 			b, err := os.ReadFile(savedPath)
 			if err != nil || len(b) < 20 {
 				continue
 			}
 			savedIx = append([]byte(nil), b...)
-			b[len(b)-20] ^= 0x40 // inside the last item: the position / timestamp field
+			if strings.HasSuffix(savedPath, ".log") {
+				b = append(b, b[8:8+17]...)
+			} else {
+				b[len(b)-20] ^= 0x40 // inside the last item: the position / timestamp field
+			}
 			os.WriteFile(savedPath, b, 0o600)
 			x.emit("damage", map[string]any{"file": filepath.Base(savedPath)})
 		case "repair":
@@ -203,7 +219,7 @@ func genHandleHist(id int, seed int64, n int) *hHist {
 			if open[i] != "" {
 				continue
 			}
-			op := hOp{Op: "open", ID: i, Mode: []string{"rw", "ro"}[rng.Intn(2)], Create: !exists && rng.Intn(3) > 0 || rng.Intn(4) == 0, Check: rng.Intn(2) == 0}
+			op := hOp{Op: "open", ID: i, Mode: []string{"rw", "ro"}[rng.Intn(2)], Create: !exists && rng.Intn(3) > 0 || rng.Intn(4) == 0, Check: rng.Intn(2) == 0, Recover: rng.Intn(3) == 0}
 			hh.Ops = append(hh.Ops, op)
 			// shadow of the expected result, only to keep the generator's bookkeeping plausible
 			ok := exists || op.Create
@@ -212,8 +228,11 @@ func genHandleHist(id int, seed int64, n int) *hHist {
 					ok = false
 				}
 			}
-			if op.Check && corrupt {
+			if corrupt && ((op.Mode == "ro" && (op.Check || op.Recover)) || (op.Mode == "rw" && op.Check && !op.Recover)) {
 				ok = false
+			}
+			if ok && op.Mode == "rw" && op.Recover {
+				corrupt = false
 			}
 			exists = exists || op.Create
 			if ok {
